@@ -188,3 +188,21 @@ Definition set_pt_timing (s : pytimer) (t : pytiming) : pytimer := mkPyTimer (pt
 Definition opt_is_some {A} (o : option A) : bool := match o with Some _ => true | None => false end.
 (* the attempt-related part of BaseJob *)
 Record pyjobstate := mkPyJobState { pj_mark_delete : bool; pj_max_attempts : Z; pj_attempts : Z }.
+
+(* ---- loops, sets and optionals as the function translator sees them -------------------- *)
+(* for x in l: body   where body only tests and raises *)
+Fixpoint for_each {A} (l : list A) (f : A -> res unit) : res unit :=
+  match l with [] => Ok tt | x :: r => bind (f x) (fun _ => for_each r f) end.
+(* datetime(1970, 1, 1) in local microseconds since 0001-01-01 *)
+Definition epoch1970 : Z := 719162 * D.
+(* a set of datetimes: equality is dt_eqb (instants for aware values, fields for naive ones) *)
+Fixpoint dt_mem (x : datetime) (l : list datetime) : bool :=
+  match l with [] => false | y :: t => dt_eqb x y || dt_mem x t end.
+Fixpoint dt_dedup (l : list datetime) : list datetime :=
+  match l with [] => [] | x :: t => if dt_mem x t then dt_dedup t else x :: dt_dedup t end.
+(* set[str]: duplicate-free lists of tag identifiers *)
+Definition zset_inter (a b : list Z) : list Z := filter (fun x => zmem x b) a.
+Definition zset_subset (a b : list Z) : bool := forallb (fun x => zmem x b) a.
+Definition is_nil {A} (l : list A) : bool := match l with [] => true | _ => false end.
+(* the part of a job select_jobs_by_tag looks at *)
+Record pytagjob := mkPyTagJob { ptj_id : nat; ptj_tags : list Z }.
